@@ -14,30 +14,30 @@ import (
 // of the specification.
 
 type DNode struct {
-	Inner  bool
-	Big    bool
-	Short  bool
-	Labels []int // label codes: 0 empty, 1+nibble / 1+byte
-	HasPfx bool
-	Step   int    // stored step in half-bytes (steps-only mode), else -1
-	Pfx    []byte // stored bit-string incl. trailing mask byte (prefix mode)
+	Inner   bool
+	Big     bool
+	Short   bool
+	Labels  []int // label codes: 0 empty, 1+nibble / 1+byte
+	HasPfx  bool
+	Step    int    // stored step in half-bytes (steps-only mode), else -1
+	Pfx     []byte // stored bit-string incl. trailing mask byte (prefix mode)
 	HasTail bool
-	Tail   []byte
-	Val    []int // leaf value bytes, or NilV
-	TopBit bool  // inner: the last stored bit of the node's bitmap is set
+	Tail    []byte
+	Val     []int // leaf value bytes, or NilV
+	TopBit  bool  // inner: the last stored bit of the node's bitmap is set
 }
 
 type Decoded struct {
-	Nodes      []DNode
-	ShortSize  int
-	ShortTable []int
-	BigCnt     int
-	InnerCnt   int
-	LeafCnt    int
-	ShortCnt   int
-	StepCnt    int
+	Nodes                                        []DNode
+	ShortSize                                    int
+	ShortTable                                   []int
+	BigCnt                                       int
+	InnerCnt                                     int
+	LeafCnt                                      int
+	ShortCnt                                     int
+	StepCnt                                      int
 	HasInnerPrefixes, HasLeafPrefixes, HasLeaves bool
-	InnerPrefixMode string // "steps" | "prefix" | "none"
+	InnerPrefixMode                              string // "steps" | "prefix" | "none"
 }
 
 func bmGet(words []uint64, i int) bool {
